@@ -261,6 +261,13 @@ def gen_case(tape, tier):
                 ops.append({"op": "reopen", "max_size": tape.pick([None, 1, 2, 3], "disk-max")})
             else:
                 ops.append({"op": k})
+        if cls == "lru" and tape.coin(0.3, "reput-oldest"):
+            # the least recently used key is stored again with the value it has (a use like any other), then other keys
+            # arrive: the victim must be chosen as if the key had just been used
+            ops.append({"op": "put", "key": "<oldest>", "value": "<same>", "duration": 1, "ctime_step": 1})
+            for kk in tape.shuffle(KEYS, "arrivals")[:2 + tape.choose(2, "n-arrivals")]:
+                nv += 1
+                ops.append({"op": "put", "key": kk, "value": f"v{nv}", "duration": 1, "ctime_step": 1})
         return {"part": "A", "config": cfg, "ops": ops}
     cls = tape.pick(["lru", "lru", "hybrid", "disk"], "cls")
     cfg = {"cls": cls, "max_size": 1 + tape.choose(3, "max"), "shared": True, "cloudpickle": bool(tape.coin(0.5, "cp")),
@@ -568,6 +575,9 @@ def _bytes_value(n):
 
 
 def _put(c, m, op, cfg, sim, now, before, V, probes):
+    if op["key"] == "<oldest>":
+        op = dict(op, key=m.items[0][0] if isinstance(m, LRUModel) and m.items else KEYS[0])
+        probes["oldest_key_put_again"] = probes.get("oldest_key_put_again", 0) + 1
     k, v = op["key"], op["value"]
     if v == "<same>":
         # the value the key already has (a recomputed, equal result is stored again): still a use of the key
